@@ -172,6 +172,9 @@ Proof.
     rewrite (IH ys eq_refl Hb). reflexivity.
 Qed.
 
+Lemma ptexts_cons O p ps t ts : ptext O p = Ok t -> ptexts O ps = Ok ts -> ptexts O (p :: ps) = Ok (t :: ts).
+Proof. intros H1 H2. unfold ptexts in *. cbn [mapM]. rewrite H1. cbn [bind]. rewrite H2. reflexivity. Qed.
+
 Ltac sx :=
   cbn [bind py_in_dyn py_hashable' py_getitem_dyn py_dict_getitem py_dict_get_def py_isinstance_any isinstance_i
        isinstance1 py_not py_and py_or py_is_none py_is_not_none py_eqv py_index nth_error pair_fst
@@ -399,4 +402,147 @@ Proof.
   rewrite dict_items_mk. sx.
   eexists; split; [reflexivity|]. unfold mk. cbn [map ptexts mapM ptext fst snd cg_format bind model_params].
   rewrite (lits_list_repr O _ l ls He Hl). cbn [bind]. rewrite rt_kv. unfold raw. rewrite rt_raw1. reflexivity.
+Qed.
+
+Theorem ArrayMapper_paramlist O n rec kv flags k fs :
+  rec_spec O n rec ->
+  nums_of O kv array_keys = Some flags -> items_of (field_of O n) (getdef kv (s2p "items") PNone) = Some (k, fs) ->
+  exists ps, ArrayMapper__get_paramlist_from_schema O rec (PDict kv) = Ok (PList ps)
+             /\ ptexts O ps = Ok (map (rt O) (model_params (FArray flags k fs None))).
+Proof.
+  intros Hr Hn Hi. unfold ArrayMapper__get_paramlist_from_schema. rewrite !get_def_dict. sx.
+  rewrite (items_rec O n rec _ k fs Hr Hi). sx. rewrite dict_items_mk. sx.
+  match goal with |- context [ (PStr (s2p "items"), ?t) ] =>
+    change [(PStr (s2p "uniqueItems"), getdef kv (s2p "uniqueItems") PNone);
+            (PStr (s2p "additionalItems"), getdef kv (s2p "additionalItems") PNone);
+            (PStr (s2p "minItems"), getdef kv (s2p "minItems") PNone);
+            (PStr (s2p "maxItems"), getdef kv (s2p "maxItems") PNone); (PStr (s2p "items"), t)]
+      with (map (kvget kv) array_keys ++ [(PStr (s2p "items"), t)])%list
+  end.
+  rewrite drop_none_ok.
+  eexists; split; [reflexivity|]. rewrite filter_app, map_app. cbn [model_params]. rewrite map_app.
+  apply ptexts_app; [exact (nums_ptexts O kv array_keys flags Hn)|].
+  destruct (items_toks k (map field_toks fs)) as [c|]; cbn [filter snd py_is_not_none py_is_none negb map].
+  - unfold mk. cbn [fst snd ptexts mapM ptext cg_format bind]. rewrite rt_kv. unfold raw. rewrite rt_raw1. reflexivity.
+  - reflexivity.
+Qed.
+
+Theorem MultiFieldMapper_paramlist O n rec k0 v0 kv' k fs ctor :
+  rec_spec O n rec -> items_of (field_of O n) v0 = Some (k, fs) ->
+  exists ps, MultiFieldMapper__get_paramlist_from_schema O rec (PDict ((k0, v0) :: kv')) = Ok (PList ps)
+             /\ ptexts O ps = Ok (map (rt O) (model_params (FMulti ctor k fs None))).
+Proof.
+  intros Hr Hi. pose proof Hr as (Hf & Hl & Hn). unfold MultiFieldMapper__get_paramlist_from_schema.
+  cbn [cg_dict_values map snd]. sx.
+  destruct v0; try discriminate; cbn [items_of option_map] in Hi.
+  - injection Hi as <- <-. sx. rewrite Hn. sx. rewrite dict_items_mk. sx.
+    eexists; split; [reflexivity|]. unfold mk. cbn [map fst snd ptexts mapM ptext cg_format cg_repr bind model_params items_toks].
+    rewrite rt_kv. unfold raw. rewrite !rt_raw1. reflexivity.
+  - destruct (mapO (field_of O n) l) as [gs|] eqn:E; [|discriminate]. injection Hi as <- <-. sx.
+    rewrite (Hl l gs E). sx. rewrite dict_items_mk. sx.
+    eexists; split; [reflexivity|]. unfold mk. cbn [map fst snd ptexts mapM ptext cg_format bind model_params items_toks].
+    rewrite rt_kv. unfold raw. rewrite rt_raw1, rt_raw, rt_app, rt_join, !rt_raw1, map_map. reflexivity.
+  - destruct (field_of O n (PDict kv)) as [g|] eqn:E; [|discriminate]. injection Hi as <- <-. sx.
+    rewrite (Hl [PDict kv] [g]); [|cbn [mapO]; rewrite E; reflexivity]. sx. rewrite dict_items_mk. sx.
+    eexists; split; [reflexivity|]. unfold mk. cbn [map fst snd ptexts mapM ptext cg_format bind model_params items_toks].
+    rewrite rt_kv. unfold raw. rewrite rt_raw1, rt_raw, rt_app. cbn [join_strs map join]. rewrite !rt_raw1. reflexivity.
+Qed.
+
+Lemma as_strs_lits O l : forall r, as_strs l = Some r -> mapO (lit_of O) l = Some (map LStr r).
+Proof.
+  induction l as [|v l IH]; intros r H.
+  - injection H as <-. reflexivity.
+  - cbn [as_strs] in H. destruct v; try discriminate. destruct (as_strs l) as [r'|]; [|discriminate].
+    injection H as <-. cbn [mapO lit_of map]. rewrite (IH r' eq_refl). reflexivity.
+Qed.
+
+Lemma props_comp O n rec : rec_fields O n rec -> forall pkv props,
+  mapO (prop_of (field_of O n)) pkv = Some props ->
+  exists qs,
+    cg_comp (fun x => p <- py_unpack2 x ;; t <- rec (pair_snd p) (PList []) ;; Ok (Some (PTuple [pair_fst p; t])))
+            (PList (map mk pkv)) = Ok (PList qs)
+    /\ ptexts O qs
+       = Ok (map (rt O) (map (fun p => CodeGen.kv [TStr (s2p "nested_property_name") (fst p)] (field_toks (snd p))) props)).
+Proof.
+  destruct sites_name as (_ & _ & Hnp & _).
+  intros Hf. unfold cg_comp. cbn [cg_iter bind].
+  induction pkv as [|[a b] pkv IH]; intros props H.
+  - injection H as <-. exists []. split; reflexivity.
+  - cbn [mapO] in H. unfold prop_of in H at 1. cbn [fst snd] in H.
+    destruct a; try discriminate. destruct (field_of O n b) as [f|] eqn:E; [|discriminate].
+    destruct (mapO (prop_of (field_of O n)) pkv) as [ps'|]; [|discriminate]. injection H as <-.
+    destruct (IH ps' eq_refl) as (qs & Hq & Ht).
+    cbn [map filter_mapM]. unfold mk at 1. cbn [py_unpack2 bind pair_fst pair_snd fst snd].
+    rewrite (Hf b f E). cbn [bind].
+    destruct (filter_mapM _ (map mk pkv)) as [rs|]; [|discriminate]. cbn [bind] in *. injection Hq as <-.
+    eexists; split; [reflexivity|]. unfold ptexts in *. cbn [mapM ptext cg_format bind]. rewrite Ht. cbn [bind].
+    rewrite rt_kv, (rt_str_name O _ s [] Hnp), rt_nil, app_nil_r. reflexivity.
+Qed.
+
+Theorem StructureReferenceMapper_paramlist O n rec kv pkv req props :
+  rec_spec O n rec ->
+  sget kv "properties" = Some (PDict pkv) -> required_of (sget kv "required") = Some req ->
+  mapO (prop_of (field_of O n)) pkv = Some props ->
+  exists ps, StructureReferenceMapper__get_paramlist_from_schema O rec (PDict kv) = Ok (PList ps)
+             /\ ptexts O ps = Ok (map (rt O) (model_params (FObject (closed_of kv) req props None))).
+Proof.
+  destruct sites_repr as (_ & _ & _ & _ & _ & _ & Hnr).
+  intros (Hf & _ & _) Hp Hreq Hprops. unfold StructureReferenceMapper__get_paramlist_from_schema.
+  rewrite !get_def_dict. sx.
+  destruct (props_comp O n rec Hf pkv props Hprops) as (qs & Hq & Hqt).
+  assert (Eprops : getdef kv (s2p "properties") (PDict []) = PDict pkv) by (unfold getdef; rewrite Hp; reflexivity).
+  rewrite Eprops, dict_items_mk. sx.
+  assert (Hreqpart : exists rp,
+            (if py_is_not_none (getdef kv (s2p "required") PNone)
+             then Ok (PList [PTuple [PStr (s2p "_required"); getdef kv (s2p "required") PNone]]) else Ok (PList []))
+            = Ok (PList rp)
+            /\ ptexts O rp = Ok (map (rt O) match req with
+                                           | Some r => [CodeGen.kv [raw "_required"] (list_toks (s2p "nested_required") (map LStr r))]
+                                           | None => []
+                                           end)).
+  { unfold getdef. destruct (sget kv "required") as [v|]; [destruct v; try discriminate|]; cbn [required_of option_map] in Hreq.
+    - injection Hreq as <-. exists []. split; reflexivity.
+    - destruct (as_strs l) as [r|] eqn:El; [|discriminate]. injection Hreq as <-.
+      eexists; split; [reflexivity|]. cbn [ptexts mapM ptext cg_format bind].
+      rewrite (lits_list_repr O _ l (map LStr r) Hnr (as_strs_lits O l r El)). cbn [bind map].
+      rewrite rt_kv. unfold raw. rewrite rt_raw1. reflexivity.
+    - injection Hreq as <-. exists []. split; reflexivity. }
+  destruct Hreqpart as (rp & Erp & Hrp).
+  unfold closed_of. cbn [model_params].
+  destruct (py_truthy (getdef kv (s2p "additionalProperties") (PBool true))); cbn [negb]; sx;
+    rewrite Erp; sx; rewrite Hq; sx; (eexists; split; [reflexivity|]); cbn [app map].
+  - rewrite map_app. apply ptexts_app; assumption.
+  - apply ptexts_cons; [|rewrite map_app; apply ptexts_app; assumption].
+    cbn [ptext cg_format cg_repr bind]. rewrite rt_kv. unfold raw. rewrite !rt_raw1. reflexivity.
+Qed.
+
+Definition map_value_of (O : cg_oracle) (n : nat) (kv : list (pyval * pyval)) : option (option jfield) :=
+  let ap := getdef kv (s2p "additionalProperties") PNone in
+  if py_truthy ap then
+    match getdef kv (s2p "maxItems") PNone, getdef kv (s2p "minItems") PNone, field_of O n ap with
+    | PNone, PNone, Some v => Some (Some v)
+    | _, _, _ => None
+    end
+  else Some None.
+
+Theorem MapMapper_paramlist O n rec kv value :
+  rec_spec O n rec ->
+  py_truthy (getdef kv (s2p "patternProperties") PNone) = false ->
+  map_value_of O n kv = Some value ->
+  exists ps, MapMapper__get_paramlist_from_schema O rec (PDict kv) = Ok (PList ps)
+             /\ ptexts O ps = Ok (map (rt O) (model_params (FMap value None))).
+Proof.
+  intros (Hf & _ & _) Hpp Hv. unfold MapMapper__get_paramlist_from_schema. rewrite !get_def_dict. sx.
+  assert (Hpn : py_truthy (getdef kv (s2p "patternProperties") (PDict [])) = false).
+  { revert Hpp. unfold getdef. destruct (sget kv "patternProperties"); [trivial | reflexivity]. }
+  rewrite Hpp. sx. cbn [cg_any cg_iter any_cond bind]. rewrite Hpp, Hpn. unfold map_value_of in Hv.
+  destruct (py_truthy (getdef kv (s2p "additionalProperties") PNone)) eqn:Eap; sx.
+  - destruct (getdef kv (s2p "maxItems") PNone); try discriminate.
+    destruct (getdef kv (s2p "minItems") PNone); try discriminate.
+    destruct (field_of O n (getdef kv (s2p "additionalProperties") PNone)) as [v|] eqn:E; [|discriminate].
+    injection Hv as <-. rewrite (Hf _ v E). sx. rewrite dict_items_mk. sx. rewrite drop_none_ok.
+    cbn [filter snd py_is_not_none py_is_none negb map]. eexists; split; [reflexivity|].
+    unfold mk. cbn [fst snd ptexts mapM ptext cg_format bind model_params map].
+    rewrite rt_kv. unfold raw. rewrite rt_raw1, rt_raw, rt_app, rt_raw1. reflexivity.
+  - injection Hv as <-. exists []. split; reflexivity.
 Qed.
